@@ -67,12 +67,34 @@ def run_exact(rec, opt=None):
 
     MDmod.esdriver = WellES
     nm = len(rec["x0"])
-    species = torch.tensor([[1, 1, 0]] * nm, dtype=torch.int64)
-    coords = torch.zeros(nm, 3, 3, dtype=torch.float64)
+    layout = rec.get("layout", "first")
+    if layout == "first":
+        # every row: moving atom, atom at rest in its well, padding slot
+        species = torch.tensor([[1, 1, 0]] * nm, dtype=torch.int64)
+        coords = torch.zeros(nm, 3, 3, dtype=torch.float64)
+        mover = [0] * nm
+        for m in range(nm):
+            coords[m, 2] = torch.tensor([0.7, -0.3, 0.2])
+        padcol = [[2]] * nm
+    else:
+        # rows of growing size (the first row is the smallest), the moving atom is the LAST real atom of its row
+        width = 2 * nm + 1
+        species = torch.zeros(nm, width, dtype=torch.int64)
+        coords = torch.zeros(nm, width, 3, dtype=torch.float64)
+        mover, padcol = [], []
+        for m in range(nm):
+            nreal = 2 + 2 * m          # even electron counts
+            species[m, :nreal] = 1
+            mover.append(nreal - 1)
+            padcol.append(list(range(nreal, width)))
+            for c in padcol[-1]:
+                coords[m, c] = torch.tensor([0.7, -0.3, 0.2])
     for m in range(nm):
-        coords[m, 0, 0] = float(rec["x0"][m])
-        coords[m, 2] = torch.tensor([0.7, -0.3, 0.2])
-    pad0 = coords[:, 2].clone()
+        coords[m, mover[m], 0] = float(rec["x0"][m])
+    padmask = torch.zeros(coords.shape[:2], dtype=torch.bool)
+    for m in range(nm):
+        padmask[m, padcol[m]] = True
+    pad0 = coords[padmask].clone()
     params = mdlib.seqm_params()
     mol = Molecule(Constants(), params, coords.clone(), species)
     if opt is None:
@@ -83,12 +105,15 @@ def run_exact(rec, opt=None):
     old = sys.stdout
     sys.stdout = buf
     try:
-        fe, ee = opt.run(mol)
+        fe, ee = opt.run(mol) if rec.get("log", True) else opt.run(mol, log=False)
     finally:
         sys.stdout = old
     its, final = parse_log(buf.getvalue())
-    return {"its": its, "final": final, "ret_fmax": float(fe), "ret_de": float(ee), "x": [float(mol.coordinates[m, 0, 0]) for m in range(nm)],
-            "pad_moved": float((mol.coordinates[:, 2] - pad0).abs().max()), "other_atom": float(mol.coordinates[:, 1].abs().max()), "evals": opt.esdriver.ncalls - calls0}
+    rest = torch.ones(coords.shape[:2], dtype=torch.bool) & ~padmask
+    for m in range(nm):
+        rest[m, mover[m]] = False
+    return {"its": its, "final": final, "ret_fmax": float(fe), "ret_de": float(ee), "x": [float(mol.coordinates[m, mover[m], 0]) for m in range(nm)], "logged": bool(rec.get("log", True)),
+            "pad_moved": float((mol.coordinates[padmask] - pad0).abs().max()), "other_atom": float(mol.coordinates[rest].abs().max()), "evals": opt.esdriver.ncalls - calls0}
 
 
 def compare_exact(rec, o):
@@ -96,7 +121,8 @@ def compare_exact(rec, o):
     bad = []
     nm = len(rec["x0"])
     path = rec["path"]
-    if o["evals"] != rec["it"] or len(o["its"]) != rec["it"]:
+    logged = o.get("logged", True)
+    if o["evals"] != rec["it"] or (logged and len(o["its"]) != rec["it"]):
         bad.append({"what": "iterations", "got": [o["evals"], len(o["its"])], "expected": rec["it"]})
         return bad
     E = []
@@ -104,6 +130,8 @@ def compare_exact(rec, o):
         fm = K * max(abs(v) for v in p["x"]) / S
         en = [K * (v / S) ** 2 / 2 for v in p["x"]]
         E.append(en)
+        if not logged:
+            continue
         it = o["its"][n]
         if abs(it["fmax"] - fm) > 1e-6 * (1 + fm) or any(abs(a - b) > 1e-6 * (1 + abs(b)) for a, b in zip(it["E"], en)):
             bad.append({"what": "iteration_values", "n": n + 1, "got": it, "expected": {"fmax": fm, "E": en}})
@@ -117,7 +145,9 @@ def compare_exact(rec, o):
         bad.append({"what": "final_coordinates", "got": o["x"], "expected": [b / S for b in rec["final"]]})
     if o["pad_moved"] != 0.0:
         bad.append({"what": "padding_atom_moved", "got": o["pad_moved"]})
-    if not rec["ambiguous"]:
+    if o["other_atom"] != 0.0:
+        bad.append({"what": "atom_at_rest_moved", "got": o["other_atom"]})
+    if not rec["ambiguous"] and logged:
         want = rec["report"]
         if o["final"] is None or o["final"][0] != want:
             bad.append({"what": "report", "got": o["final"], "expected": want})
